@@ -470,4 +470,27 @@ def run(tier: str, seed: int) -> list[Part]:
         part.counters["tlc_wall_s"] = res.wall_s
         part.wall_s = time.time() - t0
         parts.append(part)
+    if tier == "thorough":
+        parts.append(_simulated(seed))
     return parts
+
+
+def _simulated(seed: int) -> Part:
+    """TLC simulation mode: random behaviours of depth 6 (beyond the exhaustive bound), terminal states replayed."""
+    import random
+
+    t0 = time.time()
+    res = run_tlc("MC_Iter.tla", "IterSim6.cfg", simulate="num=60", seed=seed, extra_args=["-depth", "8"], heap="4g", timeout=7200)
+    if res.violated:
+        raise MachineryError(f"model-level violation of {res.violated} in IterSim6.cfg (simulation):\n{res.error_text}")
+    part = Part(name="iterprogram:IterSim6.cfg:simulate", cfg="IterSim6.cfg", states=max(res.distinct, 1), transitions=max(res.generated, 1), exhaustive=False)
+    lines = sorted(set(res.raw_lines()))
+    random.Random(seed).shuffle(lines)
+    lines = lines[:30000]
+    outs = parallel_replay(worker, lines, ctx={"event_every": 6}, chunk=300)
+    merge_worker_outputs(part, outs)
+    events = [ev for o in outs for ev in o.get("events", [])]
+    judge_trees(events, part, "iter")
+    part.notes.append(f"TLC -simulate num=60 -depth 8 seed {seed}: {len(lines)} distinct depth-6 histories replayed")
+    part.wall_s = time.time() - t0
+    return part
